@@ -32,7 +32,7 @@ INDEX — clause of properties.jsonl#C20.statement → theorem(s)
   * every JSON wrapper, EVERY byte string  `unmarshal_exact_or_error`, `i64_exact_or_error`, `u64_exact_or_error`,
                                            `unixtime_exact_or_error`, `nanotime_exact_or_error`, `stamp_exact_or_error`,
                                            `unmarshal_complete_quoted`, `unmarshal_range_quoted`
-  * byte lists, "wrapped bytes" .......... `jsbyte_exact_or_error`, `jsbyte_no_wrap`
+  * byte lists, "wrapped bytes" .......... `jsbyte_exact_or_error`, `jsbyte_no_wrap`, `jsbyte_no_dropped_elements`
   * Duration ............................. `dur_exact_or_error` (only the quoted / whole text reaches the parser; exactness of the
                                            parser itself is relative to the hand-written model of `time.ParseDuration`)
   * SQL scanners ......................... `scan_exact_or_error`, `scan_refuses_unsupported`, `stamp_scan_exact_or_error`
@@ -144,6 +144,49 @@ theorem jsbyte_no_wrap (c : Cfg) (hc : Proved c) (b : Bytes) (l : List Nat)
   · rcases hd with ⟨_, rfl⟩ | ⟨_, hr⟩
     · intro x hx; cases hx
     · exact listRel_le_255 hr
+
+theorem listRel_length {α β : Type} {R : α → β → Prop} {as : List α} {bs : List β} (h : ListRel R as bs) :
+    as.length = bs.length := by
+  induction h with
+  | nil => rfl
+  | cons _ _ ih => simp [ih]
+
+/-- JsByte: no element is dropped or invented — a decoded list has exactly one element per `/`-separated piece of the
+    text, whatever its length (300 elements, 70 000 elements) -/
+theorem jsbyte_no_dropped_elements (c : Cfg) (hc : Proved c) (s : Bytes) (l : List Nat) (hs : s ≠ [])
+    (h : decodeBytes c.byte c.byteConv (34 :: (s ++ [34])) = .ok l) : l.length = (splitSlash s).length := by
+  have hq : ∀ s' : Bytes, (34 : Nat) :: (s ++ [34]) = 34 :: (s' ++ [34]) → s' = s := by
+    intro s' he
+    have := congrArg inner he
+    rw [inner_quoted, inner_quoted] at this
+    exact this.symm
+  rcases jsbyte_exact_or_error c hc _ l h with ⟨s', he, hd⟩ | hd
+  · have := hq s' he
+    subst this
+    rcases hd with ⟨he', _⟩ | ⟨_, hr⟩
+    · exact absurd he' hs
+    · exact (listRel_length hr).symm
+  · -- the quoted token read as a bare list: its first piece starts with the quote character, which denotes nothing
+    rcases hd with ⟨he', _⟩ | ⟨_, hr⟩
+    · cases he'
+    · exfalso
+      have hne := splitSlash_ne_nil (34 :: (s ++ [34]))
+      cases hsp : splitSlash (34 :: (s ++ [34])) with
+      | nil => exact hne hsp
+      | cons p ps =>
+        have hp : ∃ t, p = 34 :: t := by
+          simp only [splitSlash, show (34 : Nat) ≠ 47 by decide, if_false] at hsp
+          split at hsp
+          · simp only [List.cons.injEq] at hsp; exact ⟨[], hsp.1.symm⟩
+          · rename_i q qs _; simp only [List.cons.injEq] at hsp; exact ⟨q, hsp.1.symm⟩
+        obtain ⟨t, rfl⟩ := hp
+        rw [hsp] at hr
+        cases hr with
+        | cons h1 _ =>
+          rcases h1.1 with ⟨hdg, _⟩ | ⟨u, hu, _⟩ | ⟨u, hu, _⟩
+          · have := hdg.2 34 (by simp); omega
+          · simp at hu
+          · simp at hu
 
 /-- Duration: only a quoted (or entirely bare) text is handed to `ParseDuration` — never a slice of something else -/
 theorem dur_exact_or_error (c : Cfg) (hc : Proved c) (b : Bytes) (d : Int) (h : decodeDur c.dur b = .ok d) :
